@@ -105,6 +105,13 @@ class C14(Prop):
                    183: 'the loop kept running although the count had reached n', 184: 'the loop stopped before the count reached n',
                    185: 'the return disturbed the customers waiting / in service', 186: 'count bookkeeping of the observer inconsistent'}
 
+    def frame_index(self, tr, k):
+        # the acceptor reports the index of a CALL; the generic finding triggers want the index of the last frame of that call
+        ends = getattr(tr, 'run_ends', None) or []
+        if isinstance(k, int) and 0 <= k < len(ends):
+            return ends[k]['frames']
+        return len(tr.frames) + 1
+
     def adjust(self, cfg, job):
         rng = random.Random('c14/%s/%s' % (cfg.get('region'), cfg.get('gen_seed')))
         def one():
